@@ -192,6 +192,67 @@ fn record(args: &Args) {
     out.finish();
 }
 
+/// DESIGN.md section 7: `Identity::op` ignores `UnexpectedState` when the change has a concurrent
+/// change in the graph -- `Dag::siblings_of` on the *current* graph, which still contains changes
+/// that are pruned later. Real identity object of a real repository; X = a vote on the (accepted,
+/// hence not votable) root revision by the delegate, Y = a concurrent change with a forged signature.
+fn identity(args: &Args) {
+    use nonempty::NonEmpty;
+    use radicle::cob::identity;
+    use radicle::cob::store::encoding::encode;
+    use radicle::storage::git::Repository;
+    use radicle::storage::ReadRepository;
+    use radicle_cob::change::{Storage as _, Template};
+    let mut out = Out::create(Path::new(args.req("--out")));
+    let work = std::env::current_dir().unwrap();
+    let w = World::new(&work, Kind::Issue);
+    let repo: &Repository = &w.repo;
+    let tn = identity::TYPENAME.clone();
+    let root = repo.identity_root().expect("identity root");
+    let object = radicle::cob::ObjectId::from(root);
+    let action = encode(identity::Action::RevisionReject { revision: root }).expect("encode");
+    let store = |forged: bool, nonce: u64| -> Oid {
+        let t = Template {
+            type_name: tn.clone(),
+            tips: vec![root],
+            message: format!("verif identity change n{nonce}"),
+            embeds: vec![],
+            contents: NonEmpty::new(action.clone()),
+        };
+        if forged { repo.store(None, vec![], &w.forger, t) } else { repo.store(None, vec![], &w.node.signer, t) }.expect("store").id
+    };
+    let x = store(false, 0);
+    // Y below X in id order: X is evaluated first, while Y is still in the graph. Y2 above X.
+    let y_lo = (1..10_000).map(|n| store(true, n)).find(|y| *y < x).expect("grind");
+    let y_hi = (10_000..20_000).map(|n| store(true, n)).find(|y| *y > x).expect("grind");
+    let eval = |refs: &[(usize, Oid)]| -> Value {
+        w.present_for(&tn, &object, refs);
+        match guard(|| radicle::cob::get::<identity::Identity, _>(repo, &tn, &object)) {
+            Ok(Ok(Some(o))) => {
+                let name = |o: &Oid| if *o == *object { "R" } else if *o == x { "X" } else if *o == y_lo || *o == y_hi { "Y" } else { "?" };
+                let mut hist: Vec<&str> = o.history().graph().sorted().iter().map(|k| name(k)).collect();
+                hist.sort();
+                let full = serde_json::to_value(o.object()).unwrap_or(Value::Null);
+                let timeline: Vec<&str> = full["timeline"].as_array().map(|a| a.iter().map(|v| {
+                    let oid: Oid = v.as_str().unwrap().parse().unwrap();
+                    name(&oid)
+                }).collect()).unwrap_or_default();
+                json!({"hist": hist, "timeline": timeline})
+            }
+            Ok(Ok(None)) => json!({"error": "not found"}),
+            Ok(Err(e)) => json!({"error": e.to_string()}),
+            Err(p) => json!({"error": format!("panic: {p}")}),
+        }
+    };
+    let with_lo = eval(&[(0, x), (1, y_lo)]);
+    let with_hi = eval(&[(0, x), (1, y_hi)]);
+    let alone = eval(&[(0, x)]);
+    out.emit(&json!({"identity_probe": true, "x_with_forged_sibling_evaluated_later": with_lo,
+                     "x_with_forged_sibling_evaluated_earlier": with_hi, "x_alone": alone,
+                     "differs": with_lo != alone}));
+    out.finish();
+}
+
 fn main() {
     let args = Args::parse();
     quiet_panics();
@@ -211,6 +272,7 @@ fn main() {
         }
         "shard" => shard(&args),
         "record" => record(&args),
+        "identity" => identity(&args),
         m => fatal(&format!("unknown mode {m}")),
     }
 }
